@@ -441,8 +441,62 @@ def check_late_override(tname, acc):
             f'(override default 777)', case))
 
 
+def check_override_survives(how, later, acc):
+    """An override the composite carries for key p - from its _schema
+    config or from an earlier merge(schema_override=...) - names the
+    process AT that key: it still applies after a later merge has replaced
+    the process object there (and after unrelated merges)."""
+    case = {'part': 'override-survives', 'how': how, 'later': later}
+    acc.case(key=('override-survives', how, later), outcome='override')
+    ov = {'p': {'port': {'x': {'_default': 4321}}}}
+    try:
+        if how == 'config':
+            # the Composite's own configuration (a Composer applies its
+            # _schema once, at generation, and hands nothing on)
+            t = TEMPLATES['flat']
+            comp = Composite({
+                'processes': probes.build_tree(
+                    copy.deepcopy(t['processes'])),
+                'topology': copy.deepcopy(t['topology']),
+                '_schema': copy.deepcopy(ov)})
+        else:
+            comp = ProbeComposer({'template': 'flat'}).generate()
+            comp.merge(schema_override=copy.deepcopy(ov))
+        if later == 'replace':
+            comp.merge(processes={'p': probes.build_tree(
+                {'p': pspec('p', 's')})['p']},
+                topology={'p': {'port': ('s',)}})
+        elif later == 'unrelated':
+            comp.merge(processes={'extra': probes.build_tree(
+                {'extra': pspec('extra', 's3')})['extra']},
+                topology={'extra': {'port': ('s3',)}})
+        elif later == 'other-override':
+            comp.merge(schema_override={'q': {'port': {'y': {
+                '_default': 99}}}})
+        got = comp['processes']['p'].get_schema()['port']['x'].get(
+            '_default')
+        store = comp.generate_store()
+        held = store.get_value()['s']['x']
+        eng = run_engine(1, composite=comp)
+        first = eng.emitter.records[0]['snapshot']['s']['x']
+    except Exception as e:  # noqa
+        acc.violate(fw.violation(
+            'C16.crash', f'override-survives:{type(e).__name__}',
+            f'{how}/{later}: {e!r}', case))
+        return
+    if (got, held, first) != (4321, 4321, 4321):
+        acc.violate(fw.violation(
+            'C16.override', 'recorded-override-lost-after-later-merge',
+            f'override for p.port.x given through {how}, then a merge '
+            f'({later}): schema default {got}, store holds {held}, the '
+            f'engine starts with {first} (override default 4321)', case))
+
+
 def run_job(job, acc):
     kind = job[0]
+    if kind == 'override-survives':
+        check_override_survives(job[1], job[2], acc)
+        return
     if kind == 'late-override':
         check_late_override(job[1], acc)
         return
@@ -469,6 +523,9 @@ def jobs(ctx):
             # (only template in which p alone declares s/x: a variable
             # shared by several declarers takes the last declared default)
             out.append(('late-override', tname))
+    for how in ('config', 'merge'):
+        for later in ('none', 'replace', 'unrelated', 'other-override'):
+            out.append(('override-survives', how, later))
     acts = merge_actions()
     for n in range(1, BOUNDS[ctx.tier]['merge_len'] + 1):
         for seq in itertools.product(acts, repeat=n):
@@ -492,6 +549,8 @@ def replay(case):
         check_merges(tup(case['sequence']), acc)
     elif case['part'] == 'late-override':
         check_late_override(case['template'], acc)
+    elif case['part'] == 'override-survives':
+        check_override_survives(case['how'], case['later'], acc)
     elif case['part'] == 'entry':
         check_entry_points(case['template'], tup(case['path']), acc,
                            case['explicit_state'])
